@@ -24,9 +24,9 @@ FANCY = {
     'B': ['Pin', 'or_B', 'log_b', 'B2', 'b_'],
     'C': ['if_C', 'C_c', 'max_c', 'lambda_', 'Cons'],
     'D': ['None_d', 'D1', 'min_d', 'and_D', 'dd'],
-    'X': ['in_X', 'X_1', 'abs_x', 'Xx', 'x'],
-    'Z': ['else_Z', 'Z9', 'sqrt_z', 'zeta', 'np_z'],
-    'W': ['while_W', 'W_', 'w2', 'True_w', 'self_w'],
+    'X': ['in_X', 'X_1', 'abs_x', 'Yield', 'match'],
+    'Z': ['else_Z', 'IS', 'sqrt_z', 'type', 'np_z'],
+    'W': ['while_W', 'IMPORT', 'w2', 'case', 'self_w'],
     'a': ['alpha_1', 'is_a', 'a1', 'for_a', 'aa'],
     'b': ['beta', 'not_b', 'b_2', 'in_b', 'bb'],
     'e': ['err_1', 'if_err', 'e_', 'eps', 'or_e'],
@@ -50,7 +50,17 @@ def gen_program(rng, max_eq=4, max_lag=3, max_lead=3, allow_funcs=True):
             prog['reads'] = {ren.get(k_, k_): v_ for k_, v_ in prog['reads'].items()}
             prog['params'] = [ren.get(x, x) for x in prog['params']]
             prog['errs'] = [ren.get(x, x) for x in prog['errs']]
+            prog['order'] = [ren.get(x, x) for x in prog['order']]
+    prog['declared'] = declared_names(prog)
     return prog
+
+
+def declared_names(prog):
+    """The variable list a model built from the script declares: endogenous, exogenous, parameters, errors - each group in
+    order of first appearance in the script."""
+    order = prog['order']
+    endo, params, errs = set(prog['endo']), set(prog['params']), set(prog['errs'])
+    return [x for x in order if x in endo] + [x for x in order if x not in endo and x not in params and x not in errs] + [x for x in order if x in params] + [x for x in order if x in errs]
 
 
 def _gen_program(rng, max_eq=4, max_lag=3, max_lead=3, allow_funcs=True):
@@ -128,10 +138,17 @@ def _gen_program(rng, max_eq=4, max_lag=3, max_lead=3, allow_funcs=True):
         if allow_funcs and r < 0.87:
             return f'exp({atom(False)})'
         if allow_funcs and r < 0.94:
-            return f'max({atom(False)}, {rng.choice(COEFS)})'
-        if allow_funcs:
-            return f'min({atom(False)}, {rng.choice(COEFS)})'
-        return atom()
+            fn = 'max'
+        elif allow_funcs:
+            fn = 'min'
+        else:
+            return atom()
+        q = rng.random()
+        if q < 0.5:
+            return f'{fn}({atom(False)}, {rng.choice(COEFS)})'
+        if q < 0.75:
+            return f'{fn}({rng.choice(COEFS)}, {atom(False)})'  # the constant first
+        return f'{fn}({atom(False)}, {rng.choice(COEFS)}, {atom(False)})'  # three arguments
 
     for v in endo:
         note(v, 0)
@@ -144,7 +161,8 @@ def _gen_program(rng, max_eq=4, max_lag=3, max_lead=3, allow_funcs=True):
             head, tail = expr.split(' + ', 1)
             lines.append(f'{v} = ({head}\n      + {tail})  # {v}, spread over two lines')
         else:
-            lines.append(f'{v} = {expr}' + ('  # a comment' if rich and rng.random() < 0.2 else ''))
+            eq = ' = ' if not rich or rng.random() < 0.8 else rng.choice(['=', ' =', '= ', '\t=\t'])
+            lines.append(f'{v}{eq}{expr}' + (rng.choice(['  # a comment', '  # see note #2 above, formerly item #7']) if rich and rng.random() < 0.25 else ''))
         if rich and rng.random() < 0.2:
             lines.append('')
     lags = max([0] + [-o for s in reads.values() for o in s])
@@ -159,6 +177,7 @@ def _gen_program(rng, max_eq=4, max_lag=3, max_lead=3, allow_funcs=True):
         'leads': leads,
         'params': [x for x in names if x in PARAMS],
         'errs': [x for x in names if x in ERRS],
+        'order': list(order),
     }
 
 
